@@ -277,6 +277,32 @@ func rC14Completion(w *World, r *Report) {
 	}
 	ru.Check(nonNil, "error-arm/non-nil", w.IPos(isIf), "only for a non-nil task error", "the error arm is not confined to non-nil errors")
 	ig := buildIG(run)
+	for _, b := range run.Blocks {
+		iff, ok := b.Instrs[len(b.Instrs)-1].(*ssa.If)
+		if !ok {
+			continue
+		}
+		for k := 0; k < 2; k++ {
+			for _, f := range condFacts(iff.Cond, k == 0, iff) {
+				if f.Op == token.NEQ && f.Y != nil && isNilConst(f.Y) {
+					if _, ok := loadOfFieldNamed(f.X, "Error"); ok {
+						okAll, wit := ig.mustPass(ig.edgeStart(b, k), func(in ssa.Instruction) bool {
+							if _, ok := isErrListAppend(in); ok {
+								return true
+							}
+							c, ok := in.(*ssa.Call)
+							return ok && calleeName(c) == nSkipPar
+						}, func(in ssa.Instruction) bool { return in.Block().Comment == "for.body" && in == in.Block().Instrs[0] })
+						if okAll {
+							ru.OK("error-arm/every-error-handled", w.IPos(iff), "every non-nil task error is either recorded or is the ErrorSkipParents signal")
+						} else {
+							ru.Bad("error-arm/every-error-handled", w.IPos(wit), "some non-nil task errors are neither recorded nor treated as ErrorSkipParents: the failure is lost, dependents start and Run can return nil")
+						}
+					}
+				}
+			}
+		}
+	}
 	// error edge: append wrapping
 	seenErr := ig.reachFrom(ig.edgeStart(isIf.Block(), 1-skipK), func(in ssa.Instruction) bool { return in.Block().Comment == "for.body" && in == in.Block().Instrs[0] })
 	wrapped := false
@@ -1297,7 +1323,7 @@ func rC16DFS(w *World, r *Report) {
 	}
 	inLoop := false
 	for _, h := range loopHeaders(d) {
-		if h.Dominates(calls[0].Block()) {
+		if naturalLoop(h)[calls[0].Block()] {
 			for _, in := range h.Instrs {
 				if nx, ok := in.(*ssa.Next); ok {
 					if rg, ok := nx.Iter.(*ssa.Range); ok {
